@@ -110,11 +110,14 @@ static inline double vin_time(void)
 }
 
 #ifndef VERIF_NO_MAIN
-void harness(void);
+#ifndef VERIF_ENTRY
+#define VERIF_ENTRY harness
+#endif
+void VERIF_ENTRY(void);
 #ifndef VERIF_CBMC
 int main(void)
 {
-	harness();
+	VERIF_ENTRY();
 	fprintf(stderr, "REPLAY: completed without assertion failure\n");
 	return 0;
 }
